@@ -189,6 +189,9 @@ pub fn check(case: &Case) -> Result<(bool, Vec<&'static str>), Failure> {
     if p.nodes.len() >= 30 {
         labels.push("nodes>=30");
     }
+    if last >= 1u128 << 64 {
+        labels.push("clock-beyond-2^64ns");
+    }
     if steps.is_some() {
         labels.push("driven-in-steps");
     }
@@ -231,7 +234,13 @@ impl Prop for C02 {
             steps: c.steps,
             concurrent_build: false,
         });
-        prop_oneof![1 => plain, 1 => stepped].boxed()
+        // buckets 2^62 ns (146 years) wide: a few bucket widths carry the clock across 2^64 ns (584 years), where a
+        // nanosecond count no longer fits 64 bit
+        let huge = prog::program_strategy(tier.pick(25, 60), false, true).prop_map(|mut program| {
+            program.params = crate::cq::QParams { n: 8, t_ns: 1 << 62 };
+            Case { program, steps: Vec::new(), concurrent_build: false }
+        });
+        prop_oneof![5 => plain, 5 => stepped, 1 => huge].boxed()
     }
     fn run(case: &Case) -> Outcome {
         match check(case) {
@@ -244,7 +253,9 @@ impl Prop for C02 {
         if tier != Tier::Thorough {
             return Vec::new();
         }
-        heap_backend_extra("C02", seed, ev)
+        let mut v = heap_backend_extra("C02", seed, ev);
+        v.extend(fuzz_extra("C02", seed, ev));
+        v
     }
     fn builtin_cases() -> Vec<(String, Case)> {
         vec![(
